@@ -171,7 +171,7 @@ def main():
             rc, keys, secs, tail = run_check(prop, scale)
             restore()
             ok = (rc == expect)
-            results.append(dict(name=name, property=prop, expected_exit=expect, exit=rc, ok=ok, keys=keys[:6], seconds=round(secs, 1), tail=None if ok else tail))
+            results.append(dict(name=name, property=prop, expected_exit=expect, exit=rc, ok=ok, scale=scale, keys=keys[:6], seconds=round(secs, 1), tail=None if ok else tail))
             print(f"{'OK  ' if ok else 'MISS'} {name:58s} {prop} exit={rc} expected={expect} {secs:5.1f}s {keys[:2]}")
         for meta_path in sorted(glob.glob(ROOT + "/seeded/*/meta.json")):
             d = os.path.dirname(meta_path)
@@ -188,7 +188,7 @@ def main():
             # Property-preserving changes (meta.expected_exit == 0) must NOT alarm.
             expect = int(meta.get("expected_exit", 1))
             ok = (rc == expect)
-            results.append(dict(name="seeded/" + name, property=prop, expected_exit=expect, exit=rc, ok=ok, keys=keys[:6], seconds=round(secs, 1), tail=None if ok else tail))
+            results.append(dict(name="seeded/" + name, property=prop, expected_exit=expect, exit=rc, ok=ok, scale=scale, keys=keys[:6], seconds=round(secs, 1), tail=None if ok else tail))
             print(f"{'OK  ' if ok else ('MISS' if expect else 'FALSE-ALARM')} seeded/{name:51s} {prop} exit={rc} expected={expect} {secs:5.1f}s {keys[:2]}")
     finally:
         restore()
